@@ -33,9 +33,9 @@ class Ctx:
         if key not in self.engines:
             mir, dt = build.dump_mir(features, package, target)
             self.mir_s += dt
-            from mirse import models_ng, models_chan, models_misc, models_nom, models_bio
+            from mirse import models_ng, models_chan, models_misc, models_nom, models_bio, models_cli
             eng = runner.make_engine(mir, build.REPO, features=build.closure(features), src_globs=src_globs,
-                                     extra_models=(models_ng, models_chan, models_misc, models_nom, models_bio))
+                                     extra_models=(models_ng, models_chan, models_misc, models_nom, models_bio, models_cli))
             runner.register_engine(key, eng)
             self.engines[key] = eng
         return key
